@@ -308,7 +308,8 @@ class Emitter:
         if t.k == 'ptr':
             if pred in ('eq', 'ne'):
                 return '((uint8_t)(%s %s %s))' % (ea, '==' if pred == 'eq' else '!=', eb)
-            ea = '((uintptr_t)%s)' % ea; eb = '((uintptr_t)%s)' % eb
+            # relational pointer comparisons stay pointer comparisons (real code only compares within one array;
+            # CBMC folds same-object comparisons to offset comparisons, casts to integers would make them symbolic)
             cop = {'ugt': '>', 'uge': '>=', 'ult': '<', 'ule': '<=', 'sgt': '>', 'sge': '>=', 'slt': '<', 'sle': '<='}[pred]
             return '((uint8_t)(%s %s %s))' % (ea, cop, eb)
         if pred in ('eq', 'ne'): return '((uint8_t)(%s %s %s))' % (ea, '==' if pred == 'eq' else '!=', eb)
